@@ -147,6 +147,61 @@ def search(payload):
             if not implies(conj, part):
                 fails.append({"p": repr(conj), "q": repr(part), "p_structure": skey(conj), "q_structure": skey(part),
                               "kind": "a conjunction (written with &) must imply its own operands"})
+    # beyond the small constants: floats a few ulp apart, integers beyond 2**53, aware datetimes in different zones, long conjunctions
+    import datetime as _dt
+    from predicate.standard_predicates import eq_p as _eq, gt_p as _gt
+    from predicate.set_predicates import in_p as _in, not_in_p as _nin
+    tz = lambda h: _dt.timezone(_dt.timedelta(hours=h))  # noqa: E731
+    close = [(0.1 + 0.2, 0.3), (1e16, 10 ** 16 + 1), (10 ** 16 + 1, 1e16), (1e10, 1e10 + 1), (2 ** 53, 2 ** 53 + 1), (float(2 ** 53), 2 ** 53 + 1),
+             (1e300, 1.0000000000000002e300), (5e-324, 0.0), (-1e-9, 0.0), (1 + 2 ** -52, 1.0), (10 ** 30, 10 ** 30 + 1), (3.0, 3),
+             (_dt.datetime(2024, 1, 1, 12, 0, tzinfo=tz(5)), _dt.datetime(2024, 1, 1, 11, 0, tzinfo=tz(0))),
+             (_dt.datetime(2024, 1, 1, 11, 0, tzinfo=tz(0)), _dt.datetime(2024, 1, 1, 12, 0, tzinfo=tz(5))),
+             (_dt.datetime(2024, 6, 1, 0, 30, tzinfo=tz(-8)), _dt.datetime(2024, 6, 1, 9, 0, tzinfo=tz(1))),
+             (_dt.datetime(2024, 1, 1, 12, 0, tzinfo=tz(2)), _dt.datetime(2024, 1, 1, 10, 0, tzinfo=tz(0))),
+             (_dt.datetime(2024, 1, 1, 12, 0), _dt.datetime(2024, 1, 1, 12, 0, 0, 1)), ("a" * 40, "a" * 39 + "b")]
+    for a, b in close:
+        mks = [_ge, _gt, _eq]
+        try:
+            mid = [a + (b - a) / 2]
+        except Exception:  # noqa: BLE001
+            mid = []
+        xs = [a, b] + mid
+        for m1, m2 in itertools.product(mks, [_ge, _gt, _eq, _ne, lambda v: _in(v), lambda v: _nin(v)]):
+            for u, v in ((a, b), (b, a)):
+                try:
+                    pp, qq = m1(u), m2(v)
+                    r = implies(pp, qq)
+                except Exception:  # noqa: BLE001
+                    continue
+                n += 1
+                ex = entails_exact(pp, qq)
+                if ex is True and not r:
+                    fails.append({"p": repr(pp), "q": repr(qq), "kind": "incomplete on an understood pair: entailment holds but implies() is False"})
+                if r:
+                    for x in xs:
+                        if call(pp, x) == ("ok", True) and call(qq, x) != ("ok", True):
+                            fails.append({"p": repr(pp), "q": repr(qq), "x": repr(x), "kind": "unsound: implies() is True but x satisfies p and not q"})
+                            break
+    for width in (8, 16, 17, 24, 40):
+        def chain(cs):
+            t = _ne(cs[0])
+            for c in cs[1:]:
+                t = t & _ne(c)
+            return t
+        cs = list(range(1, width + 1))
+        for ant, con in ((chain(cs), chain(cs + [0])), (chain(cs), chain(cs[:-1] + [0])), (chain(cs), chain([0] + cs)), (chain(cs + [0]), chain(cs)),
+                         (chain(cs), chain(cs[::-1])), (chain(cs), chain(cs[: width // 2] + [-1] + cs[width // 2:]))):
+            try:
+                r = implies(ant, con)
+            except Exception:  # noqa: BLE001
+                continue
+            n += 1
+            if r:
+                for x in (0, -1, 1, width, width + 1):
+                    if call(ant, x) == ("ok", True) and call(con, x) != ("ok", True):
+                        fails.append({"p": f"ne_p(1) & ... & ne_p({width}) [{width} operands]", "q": repr(con)[:200], "x": repr(x), "p_structure": skey(ant),
+                                      "q_structure": skey(con), "kind": "unsound: implies() is True but x satisfies p and not q"})
+                        break
     for s in (set(), {1}, {1, 2}):
         if not (implies(is_real_subset_p(set(s)), is_subset_p(set(s))) and implies(is_real_superset_p(set(s)), is_superset_p(set(s)))):
             fails.append({"p": f"is_real_subset_p({s})", "kind": "real-subset must imply subset over the same set"})
